@@ -201,6 +201,9 @@ func (w *World) finalOracles() {
 		break
 	}
 	for _, cs := range w.conns {
+		if cs != nil && cs.udp && !cs.closed {
+			w.checkUDPOpenReply(cs)
+		}
 		if cs == nil || cs.udp {
 			continue
 		}
